@@ -604,30 +604,57 @@ theorem shiftErr_map {α β} (k : Nat) (f : α → β) (r : Except ParseErr α) 
     shiftErr k (r.map f) = (shiftErr k r).map f := by
   cases r <;> rfl
 
-/-- what `classify` needs from the expression parser for indentation not to matter: leading blanks are skipped and
-only move the error column -/
+/-- equal results up to the error column -/
+def EqUpToColumn {α} : Except ParseErr α → Except ParseErr α → Prop
+  | .ok a, .ok b => a = b
+  | .error e1, .error e2 => e1.error = e2.error
+  | _, _ => False
+
+theorem EqUpToColumn.shift {α} (k : Nat) (r : Except ParseErr α) : EqUpToColumn (shiftErr k r) r := by
+  cases r <;> simp [EqUpToColumn, shiftErr]
+
+theorem EqUpToColumn.map {α β} (f : α → β) {r1 r2 : Except ParseErr α} (h : EqUpToColumn r1 r2) :
+    EqUpToColumn (r1.map f) (r2.map f) := by
+  cases r1 <;> cases r2 <;> simp_all [EqUpToColumn, Except.map]
+
+/-- what `classify` needs from the expression parser for indentation not to matter in an *expression statement*:
+leading blanks are skipped — same tree, or the same error text.  (The error column is NOT simply moved: an error at the
+very start of the text is reported at column 1 with or without leading blanks, parser.py:612/473.) -/
 def SkipsLeadingBlanks (parseExpr : String → Except ParseErr Expr) : Prop :=
   ∀ ws s : Chars, allSpace ws = true →
-    parseExpr (String.ofList (ws ++ s)) = shiftErr ws.length (parseExpr (String.ofList s))
+    EqUpToColumn (parseExpr (String.ofList (ws ++ s))) (parseExpr (String.ofList s))
 
-theorem classifyL_leading_ws (pe : String → Except ParseErr Expr) (hpe : SkipsLeadingBlanks pe) {ws : Chars} (l : Chars)
-    (h : allSpace ws = true) : classifyL pe (ws ++ l) = shiftErr ws.length (classifyL pe l) := by
+/-- every statement kind except the expression statement: no assumption about the expression parser is needed — the
+captured expression text is the same, only `match.start(expr)` moves -/
+theorem classifyL_leading_ws_stmt (pe : String → Except ParseErr Expr) {ws : Chars} (l : Chars)
+    (h : allSpace ws = true) (hs : shape l ≠ .exprStmt) :
+    classifyL pe (ws ++ l) = shiftErr ws.length (classifyL pe l) := by
   unfold classifyL
   rw [shape_leading_ws l h]
-  cases hs : shape l with
+  cases hs' : shape l with
   | jump n c => cases c with
     | none => rfl
     | some p => obtain ⟨o, e⟩ := p; simp only [Shape.shift]; rw [← shiftErr_shiftErr, shiftErr_map]
   | ret c => cases c with
     | none => rfl
     | some p => obtain ⟨o, e⟩ := p; simp only [Shape.shift]; rw [← shiftErr_shiftErr, shiftErr_map]
-  | exprStmt => simp only [Shape.shift]; rw [hpe ws l h, shiftErr_map]
+  | exprStmt => exact absurd hs' hs
   | assign n o e => simp only [Shape.shift]; rw [← shiftErr_shiftErr, shiftErr_map]
   | ifBegin o e => simp only [Shape.shift]; rw [← shiftErr_shiftErr, shiftErr_map]
   | elif o e => simp only [Shape.shift]; rw [← shiftErr_shiftErr, shiftErr_map]
   | whileBegin o e => simp only [Shape.shift]; rw [← shiftErr_shiftErr, shiftErr_map]
   | forBegin v i o e => simp only [Shape.shift]; rw [← shiftErr_shiftErr, shiftErr_map]
   | _ => rfl
+
+theorem classifyL_leading_ws (pe : String → Except ParseErr Expr) (hpe : SkipsLeadingBlanks pe) {ws : Chars} (l : Chars)
+    (h : allSpace ws = true) : EqUpToColumn (classifyL pe (ws ++ l)) (classifyL pe l) := by
+  by_cases hs : shape l = .exprStmt
+  · unfold classifyL
+    rw [shape_leading_ws l h, hs]
+    simp only [Shape.shift]
+    exact (hpe ws l h).map _
+  · rw [classifyL_leading_ws_stmt pe l h hs]
+    exact EqUpToColumn.shift _ _
 
 /-! ### white space and word characters are disjoint (the recognisers rely on it: what follows `\w*` or `\s*`) -/
 
